@@ -165,6 +165,9 @@ func (vc *VC) define(prefix, sort, term string) string {
 	if len(term) < 40 && !strings.Contains(term, " ") {
 		return term
 	}
+	if strings.Contains(term, "?") { // contains a bound variable: cannot be hoisted
+		return term
+	}
 	n := vc.freshConst(prefix, sort)
 	vc.emit(fmt.Sprintf("(assert (= %s %s))", n, term))
 	return n
@@ -356,7 +359,8 @@ func (vc *VC) termVal(term string, t types.Type) Val {
 			if strings.Contains(term, " ") {
 				nm = vc.define("sl", "Slice", term)
 			}
-			return Val{Sl: &SliceVal{"(s_arr " + nm + ")", "(s_off " + nm + ")", "(s_len " + nm + ")", "(s_cap " + nm + ")"}, Typ: t}
+			// slices held in the heap start at offset 0 of their backing array (stores of resliced slices are rejected)
+			return Val{Sl: &SliceVal{"(s_arr " + nm + ")", "0", "(s_len " + nm + ")", "(s_cap " + nm + ")"}, Typ: t}
 		}
 	}
 	return Val{T: term, Typ: t}
@@ -479,12 +483,12 @@ func (vc *VC) fieldComp(structT types.Type, i int) string {
 
 func (vc *VC) elemComp(elem types.Type) string {
 	es := vc.sortOf(elem)
-	return vc.comp("E_"+sanitize(es), fmt.Sprintf("(Array Int (Array Int %s))", es))
+	return vc.comp("E_"+typeKey(elem), fmt.Sprintf("(Array Int (Array Int %s))", es))
 }
 
 func (vc *VC) cellComp(t types.Type) string {
 	s := vc.sortOf(t)
-	return vc.comp("P_"+sanitize(s), fmt.Sprintf("(Array Int %s)", s))
+	return vc.comp("P_"+typeKey(t), fmt.Sprintf("(Array Int %s)", s))
 }
 
 func (vc *VC) globalComp(g *ssa.Global) string {
@@ -494,8 +498,8 @@ func (vc *VC) globalComp(g *ssa.Global) string {
 
 func (vc *VC) mapComps(mt *types.Map) (val, dom string) {
 	ks, vs := vc.sortOf(mt.Key()), vc.sortOf(mt.Elem())
-	val = vc.comp("M_"+sanitize(ks)+"_"+sanitize(vs), fmt.Sprintf("(Array Int (Array %s %s))", ks, vs))
-	dom = vc.comp("MD_"+sanitize(ks), fmt.Sprintf("(Array Int (Array %s Bool))", ks))
+	val = vc.comp("M_"+typeKey(mt), fmt.Sprintf("(Array Int (Array %s %s))", ks, vs))
+	dom = vc.comp("MD_"+typeKey(mt), fmt.Sprintf("(Array Int (Array %s Bool))", ks))
 	return
 }
 
@@ -860,6 +864,9 @@ func (vc *VC) load(st *State, a *Addr) Val {
 }
 
 func (vc *VC) store(st *State, a *Addr, v Val) {
+	if v.Sl != nil && v.Sl.Off != "0" {
+		vc.fatalf("a resliced slice (non-zero offset) is stored into the heap; stored slices are modelled at offset 0")
+	}
 	nv := vc.valTerm(v)
 	switch a.Kind {
 	case aObj:
